@@ -107,9 +107,7 @@ class SigmaConversionError(SigmaError):
             or getattr(self.rule, "name", None)
             or getattr(self.rule, "id", None)
         )
-        return super().__str__() + " in rule " + (
-            f"'{rule_name}'" if rule_name else str(self.rule)
-        )
+        return super().__str__() + " in rule " + (f"'{rule_name}'" if rule_name else str(self.rule))
 
 
 class SigmaDetectionError(SigmaError):
